@@ -111,6 +111,30 @@ def gen_case(rng, name, exact=False):
     else:
         b = float(rng.choice([0.5, 2.0, 7.3])) * (f[1] if f.size > 1 else 1.0) * float(rng.choice([1, 3]))
     S = np.abs(rng.normal(1, 1, size=(nr, f.size)))
+    u = rng.random()
+    if u < 0.2 and f.size > 3:
+        # spectral samples that are exactly zero in every row (comb spectra, impulses, zero-padded rows): they still carry their weight in the normalisation
+        cols = rng.choice(f.size, size=int(rng.integers(1, max(2, f.size // 2))), replace=False)
+        S[:, cols] = 0.0
+        if rng.random() < 0.3:
+            S[:] = 0.0
+            S[:, int(rng.integers(0, f.size))] = 1.0            # a unit impulse
+    elif u < 0.32 and name in ("linear_triangular", "log_triangular"):
+        # a window whose only sample lies just inside its edge (relative distance 3e-7 .. 3e-10 from it): the weight is tiny but positive, the normalised average is that sample
+        eps_rel = float(rng.choice([3e-7, 3e-8, 3e-10]))
+        if name == "log_triangular":
+            f = np.array([0.5, 2.0, 8.0, 32.0, 128.0])
+            b = 0.2
+            k = int(rng.integers(0, f.size))
+            side = 1.0 if rng.random() < 0.5 else -1.0
+            fcs = np.array([f[k] / 10.0 ** (side * (b / 2) * (1 - eps_rel)), 8.0])
+        else:
+            f = np.arange(0.0, 9.0)
+            b = 0.5
+            k = int(rng.integers(1, f.size))
+            side = 1.0 if rng.random() < 0.5 else -1.0
+            fcs = np.array([f[k] - side * (b / 2) * (1 - eps_rel), 4.0])
+        S = np.abs(rng.normal(3, 1, size=(nr, f.size))) + 1.0
     return f, S, fcs, b
 
 
